@@ -135,7 +135,7 @@ func goDriverIR(sk *Skeleton) (*driverIR, string) {
 			break
 		}
 		s = strings.NewReplacer("main.StackPointer", "SP", "c.Stackpos", "SP", "main.StateSymStack", "STACK", "c.StackSym", "STACK").Replace(s)
-		ir.guards = append(ir.guards, fmt.Sprintf("%v:%s", !cd.Pol, s))
+		ir.guards = append(ir.guards, holdsForm(s, cd.Pol))
 	}
 	// order of code tests on the reduce path
 	var ord []string
@@ -181,6 +181,11 @@ func goDriverIR(sk *Skeleton) (*driverIR, string) {
 				out = append(out, desc)
 			case "fetchLookAhead":
 				out = append(out, "fetch")
+			case "GetToken":
+				// the lexer called in place (fetchLookAhead inlined): the same fetch, `translate` around it is part of it
+				if sk := d.sk; sk != nil && sk.FuncDecl("", "fetchLookAhead") == nil {
+					out = append(out, "fetch")
+				}
 			case "ReduceFunc":
 				a := e.Term.Args[len(e.Term.Args)-1]
 				if a.Op == "neg" && a.Args[0].String() == d.aStr {
@@ -233,7 +238,7 @@ func role(t *Term, d *DriverFacts) string {
 	switch {
 	case s == d.aStr:
 		return "a"
-	case strings.Contains(s, "fetchLookAhead"), len(d.aTerm.Args) > 0 && s == d.aTerm.Args[len(d.aTerm.Args)-1].String():
+	case strings.Contains(s, "fetchLookAhead"), strings.Contains(s, "translate(main.GetToken("), len(d.aTerm.Args) > 0 && s == d.aTerm.Args[len(d.aTerm.Args)-1].String():
 		return "look"
 	case s == "val":
 		return "val"
@@ -272,7 +277,7 @@ func tsDriverIR(ts *TSStaged) (*driverIR, string) {
 		}
 		s := strings.NewReplacer("StackPointer", "SP", "StateSymStack.length", "len(STACK)").Replace(cd.Text)
 		s = strings.NewReplacer("SP==0", "(SP == 0)", "SP>len(STACK)", "(SP > len(STACK))").Replace(s)
-		ir.guards = append(ir.guards, fmt.Sprintf("%v:%s", !cd.Pol, s))
+		ir.guards = append(ir.guards, holdsForm(s, cd.Pol))
 	}
 	var ord []string
 	for _, cd := range rdP.Conds {
@@ -546,6 +551,12 @@ func c08d(c *Ctx, r *Report) {
 					if is, ok := n.(*ast.IfStmt); ok && out == "" {
 						out = pc.path(is.Cond)
 					}
+					// or a per-mode table indexed by the flag
+					if ix, ok := n.(*ast.IndexExpr); ok && out == "" {
+						if p := pc.path(ix.Index); strings.HasPrefix(p, "Utils.") {
+							out = p
+						}
+					}
 					return true
 				})
 				return out
@@ -566,4 +577,13 @@ func nonBlankLines(s string) []string {
 		}
 	}
 	return out
+}
+
+// holdsForm: what is known on the path once the condition has been tested with outcome pol, in positive comparison
+// form — `(SP == 0)` tested false and `(SP != 0)` tested true both read `(SP != 0)`.
+func holdsForm(atom string, pol bool) string {
+	if pol {
+		return positiveForm(atom)
+	}
+	return positiveForm("!(" + atom + ")")
 }
